@@ -85,14 +85,14 @@ static void emit_dacc(char *out, size_t n, const char *section, const cm_dacc_t 
 void cm_emit(cm_model_t *m) {
 	m->board_txt[0] = m->track_txt[0] = m->train_txt[0] = 0;
 	if (m->nb == 0) AP(m->board_txt, "boards: []\n"); else AP(m->board_txt, "boards:\n");
-	for (int i = 0; i < m->nb; i++) {
+	for (int i0 = 0; i0 < m->nb; i0++) { int i = m->reverse_boards ? m->nb - 1 - i0 : i0;
 		const cm_board_t *b = &m->b[i];
 		AP(m->board_txt, "  - id: %s\n    unique-id: 0x%02X%02X%02X%02X%02X%02X%02X\n", b->id, b->uid[0], b->uid[1], b->uid[2], b->uid[3], b->uid[4], b->uid[5], b->uid[6]);
 		if (b->nfeatures) { AP(m->board_txt, "    features:\n"); for (int k = 0; k < b->nfeatures; k++) AP(m->board_txt, "      - number: 0x%02x\n        value: 0x%02x\n", b->features[k].number, b->features[k].value); }
 	}
 	int any = 0; for (int i = 0; i < m->nb; i++) if (m->b[i].in_track) any = 1;
 	if (!any) AP(m->track_txt, "boards: []\n"); else AP(m->track_txt, "boards:\n");
-	for (int i = 0; i < m->nb; i++) {
+	for (int i0 = 0; i0 < m->nb; i0++) { int i = m->reverse_boards ? m->nb - 1 - i0 : i0;
 		const cm_board_t *b = &m->b[i]; if (!b->in_track) continue;
 		AP(m->track_txt, "  - id: %s\n", b->id);
 		emit_bacc(m->track_txt, sizeof m->track_txt, "points-board", b->pb, b->npb);
@@ -110,7 +110,10 @@ void cm_emit(cm_model_t *m) {
 	for (int i = 0; i < m->nt; i++) {
 		const cm_train_t *t = &m->t[i];
 		AP(m->train_txt, "  - id: %s\n    dcc-address: 0x%02x%02x\n    dcc-speed-steps: %d\n", t->id, t->addrh, t->addrl, t->steps);
-		if (t->ncal) { AP(m->train_txt, "    calibration:\n"); for (int k = 0; k < t->ncal; k++) AP(m->train_txt, "      - %d\n", t->cal[k]); }
+		if (t->cal_form == 1) AP(m->train_txt, "    calibration: 120\n");
+		else if (t->cal_form == 2) AP(m->train_txt, "    calibration:\n");
+		else if (t->cal_form == 3) AP(m->train_txt, "    calibration: 120\n    weight: 100g\n");
+		else if (t->ncal) { AP(m->train_txt, "    calibration:\n"); for (int k = 0; k < t->ncal; k++) AP(m->train_txt, "      - %d\n", t->cal[k]); }
 		if (t->nper) { AP(m->train_txt, "    peripherals:\n"); for (int k = 0; k < t->nper; k++) { AP(m->train_txt, "      - id: %s\n        bit: %d\n", t->per[k].id, t->per[k].bit); if (t->per[k].has_initial) AP(m->train_txt, "        initial: %d\n", t->per[k].initial); } }
 	}
 	if (m->num_style) { char *txt[3] = {m->board_txt, m->track_txt, m->train_txt};
